@@ -184,6 +184,13 @@ class SQLiteBuildDB : public BuildDB {
       }
 
       // Always recreate the database from scratch when the schema changes.
+      //
+      // The key identifiers handed out for the old file mean nothing in the
+      // new one: forget them, or results written from now on would refer to
+      // rows of the key table which do not exist (and which other keys are
+      // assigned later). (Like every caller of open(), we hold dbMutex here.)
+      engineKeyIDs.clear();
+      dbKeyIDs.clear();
       result = basic::sys::unlink(path.c_str());
       if (result == -1) {
         if (errno != ENOENT) {
